@@ -67,11 +67,20 @@ func newFC() interface{} {
 	return fc
 }
 
+// newFCViable: newFC plus X@3 on C that already carries justified/finalized epoch 1, so that a head exists after
+// the store finalizes C/1 (and the pinned anchor A@0 is pruned).
+func newFCViable() interface{} {
+	fc := newFC().(forkchoice.Forkchoice)
+	fc.ProcessBlock(rC, rX, 3, 1, 1)
+	fc.Head()
+	return fc
+}
+
 func head(o interface{}) string {
 	return guard(func() string {
 		h, err := o.(forkchoice.Forkchoice).Head()
 		if err != nil {
-			return "err"
+			return "err: " + err.Error() // the kind of failure is part of the observable result
 		}
 		return fmt.Sprintf("%x@%d", h.Root[:1], h.Slot)
 	})
@@ -144,6 +153,10 @@ func fcHarnesses() []*schedx.Harness {
 	justified := schedx.Op{Name: "Justified+Finalized", Do: func(o interface{}) string {
 		return guard(func() string { return fmt.Sprint(fc(o).Justified().Epoch, fc(o).Finalized().Epoch) })
 	}}
+	// one call per operation: an operation made of two calls is not atomic by construction
+	finalizedOp := schedx.Op{Name: "Finalized", Do: func(o interface{}) string {
+		return guard(func() string { return fmt.Sprint(fc(o).Finalized().Epoch) })
+	}}
 	canon := schedx.Op{Name: "CanonicalChain(A@0)", Do: func(o interface{}) string {
 		return guard(func() string {
 			ch, err := fc(o).CanonicalChain(rA, 0)
@@ -154,6 +167,9 @@ func fcHarnesses() []*schedx.Harness {
 		{Name: "fc/block+vote+head", New: newFC, Threads: [][]schedx.Op{{block(rC, rX, 3)}, {vote(0, rD, 1), headOp}, {headOp, getSlot}}},
 		{Name: "fc/justify+head+insubtree", New: newFC, Threads: [][]schedx.Op{{uj}, {headOp, vote(1, rC, 2)}, {inSub(rA, rC), headOp}}},
 		{Name: "fc/finalize+queries", New: newFC, Threads: [][]schedx.Op{{ujFin}, {canon, headOp}, {getSlot, inSub(rB, rC)}}},
+		// the first finalization removes the pin and prunes the pinned anchor: a head computation must see the anchor
+		// and the array in ONE critical section
+		{Name: "fc/finalize-past-the-pin+heads", New: newFCViable, Threads: [][]schedx.Op{{ujFin}, {headOp, headOp}, {finalizedOp, headOp}}},
 		{Name: "fc/two-voters+readers", New: newFC, Threads: [][]schedx.Op{{vote(0, rD, 1), headOp}, {vote(1, rC, 2)}, {getSlot, justified}}},
 		// pending votes are folded into the weights by whichever head computation comes first: every head
 		// computation is a writer
